@@ -709,6 +709,7 @@ Definition E_limit : N := 5.
 Definition E_replace : N := 6.
 Definition E_known : N := 7.
 Definition E_store : N := 9.
+Definition E_buffered : N := 100.  (* internal: accepted into the gapped buffer (Add returns nil) *)
 
 (* validation.go ValidateTransactionWithState + blobpool.go validateTx (no delegations) *)
 Definition validate_tx (t : tx) (p : pool) : N :=
@@ -769,7 +770,7 @@ Definition add_core (t : tx) (p : pool) : res (pool * N) :=
       if (1 <=? gapped_allowance p from)%Z && Nat.ltb (length (p_gsrc p)) maxGapped then
         let g := match aget (p_gapped p) from with Some l => l | None => [] end in
         let src := if existsb (N.eqb (t_id t)) (p_gsrc p) then p_gsrc p else p_gsrc p ++ [t_id t] in
-        Ok (set_gapped (aset (p_gapped p) from (g ++ [t])) src p, E_ok)
+        Ok (set_gapped (aset (p_gapped p) from (g ++ [t])) src p, E_buffered)
       else Ok (p, e)
     else Ok (p, e)
   else
@@ -843,14 +844,11 @@ Fixpoint promote (from : N) (gtxs : list tx) (p : pool) : res (list tx * pool) :
 
 (* blobpool.go addLocked(ptx, true) *)
 Definition add_locked (t : tx) (p : pool) : res (pool * N) :=
-  let gs0 := lenN (p_gsrc p) in
-  let buffered0 := match aget (p_gapped p) (t_from t) with Some l => lenN l | None => 0 end in
   do x <- add_core t p ;
   let '(p1, e) := x in
+  (* the gapped path returns nil before the promotion code *)
+  if e =? E_buffered then Ok (p1, E_ok) else
   if negb (e =? E_ok) then Ok (p1, e) else
-  (* a nil return of the gapped path (tx buffered) returns before the promotion code *)
-  let buffered1 := match aget (p_gapped p1) (t_from t) with Some l => lenN l | None => 0 end in
-  if negb (buffered1 =? buffered0) then Ok (p1, e) else
   match aget (p_gapped p1) (t_from t) with
   | Some ((_ :: _) as gtxs) =>
       do r <- promote (t_from t) (sort_txs gtxs) p1 ;
@@ -965,7 +963,11 @@ Definition reinject (a h : N) (p : pool) : res pool :=
       end
   end.
 
-(* blobpool.go Reset (accounts of the reinject map in address order) *)
+(* blobpool.go Reset (accounts of the reinject map in address order).
+   [legacy_limbo = true] is reorg() before the repair of C42-limbo-stale-block: limbo.update
+   was called for TxDifference(included, discarded) only, so a transaction of both segments
+   kept the block number of the old branch. *)
+Variable legacy_limbo : bool.
 Definition pool_reset (bs : list block) (newh : block) (final : N) (p : pool) : res pool :=
   let p := evict_gapped p in
   match get_block bs (p_head p) with
@@ -982,7 +984,8 @@ Definition pool_reset (bs : list block) (newh : block) (final : N) (p : pool) : 
                   do l <- fold_left (fun r a =>
                             fold_left (fun r2 '(t, _) =>
                                          do l' <- r2 ;
-                                         if (bt_from t =? a) && bt_blob t && negb (existsb (N.eqb (bt_id t)) disc_ids)
+                                         if (bt_from t =? a) && bt_blob t &&
+                                            (negb legacy_limbo || negb (existsb (N.eqb (bt_id t)) disc_ids))
                                          then limbo_update l' (bt_id t)
                                                 (match aget inclusions (bt_id t) with Some n => n | None => 0 end)
                                          else Ok l')
@@ -1015,8 +1018,9 @@ Definition track_transaction (id : N) (t : tx) (p : pool) : res (option pool) :=
   do p3 <- add_spent a (t_cost t) p2 ;
   Ok (Some (add_stored (t_size t) (track m p3))).
 
-(* blobpool.go Init on what is on disk *)
-Definition pool_init (qimg limg : image) (head : block) (tip : N) : res pool :=
+(* blobpool.go Init on what is on disk, lines 614-724: open the store, index, recheck,
+   build the heap, open the limbo *)
+Definition pool_init_load (qimg limg : image) (head : block) : res pool :=
   let '(b, calls) := billy_open qimg in
   let p0 := mkPool b 0 (mkLimbo empty_billy [] []) [] [] (b_nonce head) (b_bal head) (b_id head)
                    None [] [] [] [] (b_base head) (b_blob head) in
@@ -1032,7 +1036,11 @@ Definition pool_init (qimg limg : image) (head : block) (tip : N) : res pool :=
                      (akeys (p_index p2)) (Ok p2) ;
   do p4 <- heap_rebuild p3 ;                       (* newPriceHeap *)
   do l <- limbo_open limg ;
-  do p5 <- set_gas_tip tip (set_limbo l p4) ;
+  Ok (set_limbo l p4).
+(* blobpool.go Init, lines 725-735: SetGasTip and the Datacap loop *)
+Definition pool_init (qimg limg : image) (head : block) (tip : N) : res pool :=
+  do p4 <- pool_init_load qimg limg head ;
+  do p5 <- set_gas_tip tip p4 ;
   drop_loop (S (count_txs p5)) p5.
 
 End Model.
